@@ -43,7 +43,7 @@ Judge(o, e) ==
                 \o (IF ~e.others_unchanged THEN <<C("operands-unchanged", TRUE)>> ELSE <<>>)]
 Init == tid \in 1..Len(Traces) /\ i = 0 /\ obj = Traces[tid].obj0 /\ nbad = 0
 Next == /\ i < Len(Traces[tid].ev)
-        /\ LET e == Traces[tid].ev[i+1]  j == Judge(obj, e) IN
+        /\ \E j \in {LET e == Traces[tid].ev[i+1] IN Judge(obj, e)} :     \* bound once (an action-level LET would be re-evaluated at every use)
            /\ obj' = j.obj /\ i' = i + 1 /\ nbad' = nbad + Len(j.bad) /\ UNCHANGED tid
            /\ (j.bad # <<>> => PrintT(ToJson([tid |-> tid, step |-> i+1, bad |-> j.bad])))
            /\ (i + 1 = Len(Traces[tid].ev) => PrintT(ToJson([tid |-> tid, done |-> TRUE, nbad |-> nbad'])))
